@@ -25,13 +25,28 @@ def _tiling(ctx, res, fn, what, val_start_ok, val_end_ok):
     lp = loops[0]
     body = lp["body"]
     # (a) next_end = record.start + size
-    ne = [n for n in walk_no_nested_fn(body) if n.k == "let" and n.get("init") is not None and strip(n["init"]).k == "binary" and strip(n["init"])["op"] == "+"
-          and up(strip(n["init"])["l"]).endswith(".start") and up(strip(n["init"])["r"]).endswith(".size")]
+    def _ne_parts(n):
+        i = strip(n["init"]) if n.k == "let" and n.get("init") is not None else None
+        if i is None:
+            return None
+        if i.k == "binary" and i["op"] == "+":
+            l, r, sat = up(strip(i["l"])), up(strip(i["r"])), False
+        elif i.k == "mcall" and i["method"] in ("saturating_add",) and len(i["args"]) == 1:
+            l, r, sat = up(strip(i["recv"])), up(strip(i["args"][0])), True
+        else:
+            return None
+        return (l, r, sat) if l.endswith(".start") and r.endswith(".size") else None
+    ne = [n for n in walk_no_nested_fn(body) if _ne_parts(n)]
     if len(ne) != 1:
         res.fail(what + "/next_end", lp, "`next_end = record.start + zoom.size` not found")
         return
     next_end = up(ne[0]["pat"])
-    rec = up(strip(strip(ne[0]["init"])["l"]))[:-len(".start")]
+    rec = _ne_parts(ne[0])[0][:-len(".start")]
+    if not _ne_parts(ne[0])[2]:
+        res.fail(what + "/next_end-overflow", ne[0],
+                 "`%s` is a plain u32 addition of a coordinate and a resolution: for a record starting within one resolution of u32::MAX it overflows "
+                 "(panic with overflow checks, otherwise the cursor never advances and the write hangs); it must saturate" % up(strip(ne[0]["init"])))
+        return
     # (b) add_end = min(next_end, value_end)
     ae = [n for n in walk_no_nested_fn(body) if n.k == "let" and n.get("init") is not None and re.fullmatch(r"(std::cmp::)?min\(.*\)", up(strip(n["init"])))]
     if len(ae) != 1:
@@ -65,13 +80,51 @@ def _tiling(ctx, res, fn, what, val_start_ok, val_end_ok):
     if not val_start_ok(fn, vstart, lp):
         res.fail(what + "/add_start-init", _let(fn, add_start, lp), "cursor must start at the start of the value/segment being added; starts at `%s`" % vstart)
         return
-    # (c) update guarded by add_end >= add_start
-    gi = [n for n in walk_no_nested_fn(body) if n.k == "if" and up(strip(n["cond"])).replace(" ", "") in (
-        "%s>=%s" % (add_end, add_start), "%s<=%s" % (add_start, add_end))]
+    # (c) the record is updated exactly when the value overlaps it.  Inside the loop body add_start < value end (the exit test), so the
+    #     value overlaps the live record [rec.start, next_end) iff add_start < next_end.  Decided over all order types of
+    #     (add_start, next_end, value end) with add_end = min(next_end, value end).  `add_end >= add_start` is NOT equivalent: it also
+    #     admits add_start == next_end (a value starting exactly where the record's span ends, after a gap), which would fold that
+    #     value's min/max into a record it does not touch and stretch the record's end.
     upd = [n for n in walk_no_nested_fn(body) if n.k == "binary" and n["op"] == "+=" and up(strip(n["l"])).endswith(".summary.bases_covered")]
-    if len(gi) != 1 or len(upd) != 1 or not _inside(upd[0], gi[0]["then"]):
-        res.fail(what + "/guard", lp, "the record update must be guarded by `add_end >= add_start` (nothing is added when the live record ends before the value starts)")
+    gi = []
+    if len(upd) == 1:
+        x = upd[0].parent
+        while x is not None and isinstance(x, Node) and x is not body:
+            if x.k == "if" and _inside(upd[0], x["then"]):
+                gi.append(x)
+            x = x.parent
+    if len(upd) != 1 or len(gi) != 1:
+        res.fail(what + "/guard", lp, "the record update (bases_covered += ..) must sit under exactly one guard inside the loop")
         return
+    try:
+        gp = Pred(gi[0]["cond"])
+    except Exception as e:
+        res.fail(what + "/guard", gi[0], "guard is not a pure comparison: %s" % e)
+        return
+    roles = {add_end: "ae", add_start: "as", next_end: "ne", vend: "ve"}
+    if gp.atoms or any(t not in roles for t in gp.terms):
+        res.fail(what + "/guard", gi[0], "guard `%s` uses terms other than the cursor, add_end, the record's span end and the value end" % up(gi[0]["cond"]))
+        return
+    rows = 0
+    for ranks in weak_orders(3):
+        v = dict(zip(["as", "ne", "ve"], ranks))
+        if not v["as"] < v["ve"]:
+            continue
+        v["ae"] = min(v["ne"], v["ve"])
+        env = {t: v[roles[t]] for t in gp.terms}
+        got = gp.eval(env, {})
+        want = v["as"] < v["ne"]
+        rows += 1
+        if got != want:
+            o = order_str({k: v[k] for k in ("as", "ne", "ve")}).replace("as", add_start).replace("ne", next_end).replace("ve", vend)
+            if got and not want:
+                res.fail(what + "/guard-overlap", gi[0],
+                         "guard `%s` admits a value that does not overlap the live record (%s): a value starting exactly at the end of the record's span "
+                         "(after a gap) is folded into that record's min/max/item count with zero bases and stretches its end" % (up(gi[0]["cond"]), o))
+            else:
+                res.fail(what + "/guard-overlap", gi[0], "guard `%s` skips a value that overlaps the live record (%s): its bases are lost from the zoom level" % (up(gi[0]["cond"]), o))
+            return
+    res.ok(gi[0], "record updated iff the value overlaps it (%s < %s), decided over %d order types" % (add_start, next_end, rows))
     # (d) close record when add_end == next_end
     ci = [n for n in walk_no_nested_fn(body) if n.k == "if" and up(strip(n["cond"])).replace(" ", "") in ("%s==%s" % (add_end, next_end), "%s==%s" % (next_end, add_end))]
     if len(ci) != 1 or not list(calls(ci[0]["then"], method="push")) or "live_info.take()" not in up(ci[0]["then"]).replace(" ", ""):
@@ -144,7 +197,7 @@ def _tiling(ctx, res, fn, what, val_start_ok, val_end_ok):
     if "next_val.is_none()" not in ext or "live_info.take()" not in ext:
         res.fail(what + "/eoc", ex[0], "at the end of the chromosome (no next value) the live record must be closed")
         return
-    res.ok(lp, "tiling loop clauses: next_end=rec.start+size; add_end=min(next_end,value end); add iff add_end>=add_start; close iff add_end==next_end; "
+    res.ok(lp, "tiling loop clauses: next_end=rec.start+size; add_end=min(next_end,value end); add iff the value overlaps the record; close iff add_end==next_end; "
                "ship at items_per_slot; exit at add_start>=value end with end-of-chromosome close+ship")
 
 
